@@ -37,6 +37,8 @@ def _errors_from_string(value: str) -> list[tuple[int, str]]:
             pos = int(pos, 10)
         except ValueError:
             pos = from_isodatetime(pos)
+            if not isinstance(pos, (datetime.datetime, datetime.time)):
+                raise ValueError(f'Invalid error position "{val}"')
         items.append((int(code, 10), pos))
     return items
 
